@@ -2390,6 +2390,12 @@ class Array:
         """
         if not isinstance(other, Array) or not np.isscalar(prefactor):
             raise ValueError(f'wrong argument types: {type(prefactor)!r}, {type(other)!r}')
+        if self.dtype.kind != 'O' and other.dtype.kind != 'O' and prefactor != 0.0:
+            # promote the dtype of `self` also if `other` has no blocks (as the compiled version does)
+            calc_dtype = np.result_type(self.dtype, other.dtype, prefactor)
+            if self.dtype != calc_dtype:
+                self.dtype = calc_dtype
+                self._data = [d.astype(calc_dtype) for d in self._data]
         self.ibinary_blockwise(np.add, other.__mul__(prefactor))
         return self
 
